@@ -7,8 +7,11 @@
   `SpikeTrain` constructor, `np.unique`, `np.sort`, `np.concatenate`, `min`, `max` are modelled by their documented
   meaning (Gen/PreludeApi.lean) — the correspondence check runs them in the real code.
 
-  The source says `Eps = 1e-6`. That literal is the double 4722366482869645·2⁻⁷² ·… < 10⁻⁶; the hand-written model says
-  10⁻⁶. The first group of theorems is about the source as it is (tolerance `epsDouble`), for EVERY non-empty list;
+  The source says `Eps = 1e-6`. That literal is the double 4722366482869645 / 2⁷² < 10⁻⁶; the hand-written model says
+  10⁻⁶. All statements are in EXACT arithmetic (floats read as rationals): `tStart-Eps` and `tEnd+Eps` are rounded in the
+  running code, which matters at edges ≥ 2³⁴ (finding F16, repaired: a spike inside `[tStart, tEnd]` is kept whatever the
+  tolerance test says) and for a spike sitting within one rounding error of a band edge (DESIGN §5b).
+  The first group of theorems is about the source text as it is (tolerance `epsDouble`), for EVERY non-empty list;
   the second identifies it with the model's `reconcile` for every list with no spike in the two slivers (each narrower
   than 10⁻²²) in which the two tolerances decide differently.
 -/
@@ -96,7 +99,8 @@ theorem source_reconcile_is_model_of_valid (L : List PyTrain) (h : L ≠ [])
   exact hv t ht x hx
 
 /-- already valid input (common edges, strictly increasing spike times inside them) is returned as it is by the
-    translated source: `Reconcile=True` (the default) and `Reconcile=False` then see the same trains -/
+    translated source, in exact arithmetic: `Reconcile=True` (the default) and `Reconcile=False` then see the same trains.
+    (In floating point this failed for edges ≥ 2³⁴ before the repair of F16; the C13 oracle replays that class.) -/
 theorem source_reconcile_valid_unchanged (L : List PyTrain) (h : L ≠ []) (ts te : Q)
     (hv : ∀ t ∈ L, t.t_start = ts ∧ t.t_end = te ∧ t.spikes.Pairwise (· < ·) ∧ ∀ x ∈ t.spikes, ts ≤ x ∧ x ≤ te) :
     GenApi.reconcile_spike_trains L = some L := by
@@ -139,12 +143,13 @@ theorem source_merge_is_model (L : List PyTrain) (h : L ≠ []) :
 /-- `np.concatenate([])` raises -/
 theorem source_merge_empty_list_raises : GenApi.merge_spike_trains [] = none := gen_merge_nil
 
-/-- hence: the merged train of the source holds every spike of every train with its multiplicity, sorted, on the first
+/-- hence: the merged train of the source holds every spike of every train with its multiplicity, sorted, on the FIRST
     train's interval -/
-theorem source_merge_counts (L : List PyTrain) (h : L ≠ []) (x : Q) :
-    ∃ m, GenApi.merge_spike_trains L = some m ∧ m.spikes.Pairwise (· ≤ ·) ∧
-      m.spikes.count x = ((L.map ofPy).flatMap (·.spikes)).count x :=
-  ⟨_, gen_merge_eq L h, merge_sorted (L.map ofPy), merge_counts (L.map ofPy) x⟩
+theorem source_merge_counts (f : PyTrain) (r : List PyTrain) (x : Q) :
+    ∃ m, GenApi.merge_spike_trains (f :: r) = some m ∧ m.spikes.Pairwise (· ≤ ·) ∧
+      m.spikes.count x = (((f :: r).map ofPy).flatMap (·.spikes)).count x ∧
+      m.t_start = f.t_start ∧ m.t_end = f.t_end :=
+  ⟨_, gen_merge_eq (f :: r) (by simp), merge_sorted _, merge_counts _ x, rfl, rfl⟩
 
 end PySpike.C20
 
@@ -156,9 +161,9 @@ namespace PySpike.C15
 theorem source_default_thresh_sq_is_model (F : Nat) (L : List PyTrain) :
     GenApi.default_thresh_sq F L = some (defaultThreshSq (L.map ofPy)) := gen_default_thresh_sq F L
 
-/-- `default_thresh_(train_list, t_start, t_end)`: the mean of the squared pooled `isi_lengths`. (For `train_list = []`
-    the divisor is 0: numpy returns nan, the rational model 0; `default_thresh` returns before it would pass an empty list.) -/
-theorem source_default_thresh_pool (F : Nat) (ls : List (List Rat)) (ts te : Rat) :
+/-- `default_thresh_(train_list, t_start, t_end)` for a non-empty list: the mean of the squared pooled `isi_lengths` (the pool
+    is then non-empty, no zero divisor; for `[]` numpy returns nan and `default_thresh` returns before it would pass `[]`) -/
+theorem source_default_thresh_pool (F : Nat) (ls : List (List Rat)) (ts te : Rat) (_hne : ls ≠ []) :
     GenApi.default_thresh__sq F ls ts te =
       some (qsum ((ls.flatMap fun s => isiLengths s ts te).map fun x => x * x) /
             (((ls.flatMap fun s => isiLengths s ts te).length : Nat) : Q)) := gen_default_thresh__sq F ls ts te
